@@ -106,7 +106,8 @@ def run(replay=None):
     nontriv = set()
     samples = []
     for p in progs:
-        ho = [l for l in H.get((p.cid, p.qa), []) if not l.startswith("VO")]
+        vw = [l[3:].strip() for l in H.get((p.cid, p.qa), []) if l.startswith("VW ")]
+        ho = [l for l in H.get((p.cid, p.qa), []) if not l.startswith("VO") and not l.startswith("VW ")]
         mo = M.get((p.cid, p.qa), [])
         hb = [l for l in ho if l.startswith("B ")]
         mb = [l for l in mo if l.startswith("B ")]
@@ -157,6 +158,11 @@ def run(replay=None):
             if not got_set <= want_set:
                 ck.violation("vars", "reloaded shape has a variable name that was not saved",
                              {"program": p.text(), "shape": s, "got": got_vars, "want": want_vars})
+            if s < len(vw):
+                occ_set = set(vw[s].split(",")) if vw[s] != "-" else set()
+                if not occ_set <= got_set:
+                    ck.violation("vars_lost", "a named variable that occurs in the saved expression came back without its name",
+                                 {"program": p.text(), "shape": s, "got": got_vars, "saved_and_occurring": vw[s]})
             stats["named_vars"] += len(got_set)
             if s < len(el):
                 e = dict(x.split("=") for x in el[s].split()[1:3])
